@@ -2694,6 +2694,11 @@ static void struct_members(Token **rest, Token *tok, Type *ty) {
     }
   }
 
+  // Only the last member may have an incomplete (array) type.
+  for (Member *mem = head.next; mem; mem = mem->next)
+    if (mem->ty->size < 0 && (mem->next || mem->ty->kind != TY_ARRAY))
+      error_tok(mem->name ? mem->name : tok, "member has incomplete type");
+
   // If the last element is an array of incomplete type, it's
   // called a "flexible array member". It should behave as if
   // if were a zero-sized array.
